@@ -1,5 +1,6 @@
 (* Props/C02.v — Well-formed FTL parses to exactly the tree the grammar assigns.
-   Only statements here; proofs are in Syntax/ParseLemmas.v, RoundTrip.v, EntryLoop.v, RoundTripML.v, CallArgs.v and RoundTripSel.v.
+   Only statements here; proofs are in Syntax/ParseLemmas.v, RoundTrip.v, EntryLoop.v, RoundTripML.v, CallArgs.v, RoundTripSel.v, ArgsNest.v,
+   RoundTripNest.v and WfComplete.v.
    The grammar is Syntax/Render.v: `render cs t` prints the tree t with the layout choices cs, and
    `wf_resource t` says that t is well-formed (together with WfUtf8.wf_utf8_resource: its strings are UTF-8).
 
@@ -9,6 +10,25 @@
    and, as the code stands, it is FALSE: finding D7 (a comment whose last line is empty, printed as the last
    line of the file without a line end, loses that line) is a counterexample, proved here:
      C02_roundtrip_statement_refuted_by_D7
+   PROVED FOR ALL WELL-FORMED TREES EXCEPT THE SHAPE OF D7, for ALL layouts cs:
+     C02_roundtrip_wellformed_partial          the statement with ONE extra premise, WfComplete.comments_end_ok t: the
+                                               last line of every comment (stand-alone or attached) contains a byte
+                                               other than a space.  Nothing else is excluded: every tree with
+                                               wf_resource t, wf_utf8_resource t and comments_end_ok t parses back,
+                                               without errors, to a tree that joins to t
+     C02_layout_independent_wellformed_partial the parsed tree (joined) does not depend on the layout, same premises
+   (excluded by the premise: a comment whose last line is empty -- D7, where the statement is false when that
+   comment is printed last without a final line end -- and, more than necessary, a comment whose last line
+   consists of spaces only, and a comment with an empty last line in a position where it is harmless.)
+   How: the fragments nest_resource d below (RoundTripNest.v; d = nesting depth) extend sel_resource d by NESTED
+   CALL ARGUMENTS: a positional argument may be any inline expression (a call, a term attribute, a placeable
+   that holds any expression, select expressions included); and WfComplete.v proves that they are COMPLETE:
+     C02_roundtrip_nested_partial              the statement on nest_resource d
+     C02_nested_is_wellformed                  nest_resource d lies inside wf_resource
+     C02_nested_depth_monotone                 nest_resource d is contained in nest_resource d' for d <= d'
+     C02_select_in_nested                      sel_resource d is contained in nest_resource (d+1)
+     C02_wellformed_in_nested                  wf_resource t, wf_utf8_resource t, comments_end_ok t  imply
+                                               nest_resource d t for some d
    PROVED FOR THE FRAGMENTS sel_resource d (RoundTripSel.v; d = nesting depth of placeables, any d), for ALL
    layouts cs (RoundTripML.v: the pattern level, generic in the placeables; EntryLoop.v: the entry level):
      C02_roundtrip_select_partial              the statement restricted to the fragment
@@ -72,13 +92,14 @@
    next comment) plus 0-2 more between any two entries, 0-2 spaces on blank
    lines, LF or CRLF at every line end (also inside a value), final line end absent / present / followed by a
    blank line.  (The proof covers more: any indentation >= 1, any number of spaces and blank lines.)
-   EXCLUDED from the fragment: comments whose last line is empty or whitespace-only; call arguments that are
-   themselves calls (function references, term references with arguments or attribute) or placeables; term
-   references with attribute outside a selector (the grammar forbids them there) and message references /
-   term references without attribute as selectors (likewise); Junk.
+   EXCLUDED from sel_resource d: comments whose last line is empty or whitespace-only; call arguments that are
+   themselves calls (function references, term references with arguments or attribute) or placeables (these
+   are in nest_resource d); term references with attribute outside a selector or an argument (the grammar
+   forbids them there) and message references / term references without attribute as selectors (likewise); Junk.
    Examples (vm_compute) for trees outside the fragment: C02_example_xxx.                            *)
 From FluentV Require Import Base.Bytes Base.Outcome Base.Utf8 Syntax.Ast.
 From FluentV Require Import Syntax.ParserModel Syntax.Render Syntax.TreeNorm Syntax.WfUtf8 Syntax.RoundTrip Syntax.RoundTripML Syntax.RoundTripSel.
+From FluentV Require Import Syntax.RoundTripNest Syntax.WfComplete.
 
 (* "Every resource that is well-formed under the Fluent 1.0 grammar parses without errors or Junk and
    yields exactly the entries the grammar assigns to it ...  The tree does not depend on layout choices
@@ -88,6 +109,41 @@ From FluentV Require Import Syntax.ParserModel Syntax.Render Syntax.TreeNorm Syn
 Definition C02_roundtrip_statement : Prop :=
   forall cs t, wf_resource t = true -> wf_utf8_resource t = true ->
   exists t', parse (render cs t) = Done (t', []) /\ map join_entry t' = t.
+
+(* the statement for ALL well-formed trees but those of the shape of finding D7: the last line of every comment
+   contains a byte other than a space (WfComplete.comments_end_ok; see C02_roundtrip_statement_refuted_by_D7) *)
+Theorem C02_roundtrip_wellformed_partial :
+  forall cs t, wf_resource t = true -> wf_utf8_resource t = true -> comments_end_ok t = true ->
+  exists t', parse (render cs t) = Done (t', []) /\ map join_entry t' = t.
+Proof. exact parse_render_wf. Qed.
+
+Theorem C02_layout_independent_wellformed_partial :
+  forall cs1 cs2 t, wf_resource t = true -> wf_utf8_resource t = true -> comments_end_ok t = true ->
+  exists t1 t2, parse (render cs1 t) = Done (t1, []) /\ parse (render cs2 t) = Done (t2, []) /\
+                map join_entry t1 = map join_entry t2.
+Proof.
+  intros cs1 cs2 t Hw Hu Hc. destruct (parse_render_wf cs1 t Hw Hu Hc) as (t1 & E1 & J1).
+  destruct (parse_render_wf cs2 t Hw Hu Hc) as (t2 & E2 & J2). exists t1, t2. rewrite J1, J2. auto.
+Qed.
+
+(* the fragments with nested call arguments, and their completeness *)
+Theorem C02_roundtrip_nested_partial :
+  forall d cs t, nest_resource d t = true ->
+  exists t', parse (render cs t) = Done (t', []) /\ map join_entry t' = t.
+Proof. exact parse_render_nest. Qed.
+
+Theorem C02_nested_is_wellformed : forall d t, nest_resource d t = true -> wf_resource t = true.
+Proof. exact nest_resource_wf. Qed.
+
+Theorem C02_nested_depth_monotone : forall d d' t, d <= d' -> nest_resource d t = true -> nest_resource d' t = true.
+Proof. exact nest_resource_mono. Qed.
+
+Theorem C02_select_in_nested : forall d t, sel_resource d t = true -> nest_resource (S d) t = true.
+Proof. exact sel_resource_nest. Qed.
+
+Theorem C02_wellformed_in_nested :
+  forall t, wf_resource t = true -> wf_utf8_resource t = true -> comments_end_ok t = true -> exists d, nest_resource d t = true.
+Proof. exact wf_resource_nest. Qed.
 
 (* the same statement for the trees of the fragments (no UTF-8 premise needed there); d: nesting depth *)
 Theorem C02_roundtrip_select_partial :
@@ -316,7 +372,7 @@ Proof. rt. Qed.
 Example C02_example_multiline_3 : roundtrips_under [2;1;3;2;2;3;1;1;3;0;2;3;3;2;1;2;3;1;1;1;3;2;2;2;3;1;0;1;3;3;2;2;1;3;2;2;1;1;3;3;2] ex_multiline.
 Proof. rt. Qed.
 
-(* OUTSIDE the fragment: call arguments that are calls or placeables themselves *)
+(* OUTSIDE sel_resource d, inside nest_resource 3: call arguments that are calls or placeables themselves *)
 Definition ex_nested_args : resource :=
   [Message (b "m")
      (Some (Pattern [PlaceableElement (Inline (FunctionReference (b "F")
@@ -326,10 +382,20 @@ Definition ex_nested_args : resource :=
      [] None].
 Example C02_example_nested_args_outside : forall d, sel_resource d ex_nested_args = false.
 Proof. intros [|d]; reflexivity. Qed.
+Example C02_example_nested_args_in_nested : nest_resource 3 ex_nested_args = true.
+Proof. vm_compute. reflexivity. Qed.
 Example C02_example_nested_args_1 : roundtrips_under [] ex_nested_args.
 Proof. rt. Qed.
 Example C02_example_nested_args_2 : roundtrips_under [2;1;3;4;1;2;3;1;4;2;1;3;2;4;1;3;2;1;4;3;1;2;3;4;2;1;3;1;2;4;3;1;2] ex_nested_args.
 Proof. rt. Qed.
+
+(* the premises of C02_roundtrip_wellformed_partial hold for the examples above; the tree of D7 fails the third *)
+Example C02_example_wellformed_premises :
+  forall t, In t [ex_simple; ex_ml; ex_sel; ex_select; ex_calls; ex_nested_args; ex_multiline] ->
+  wf_resource t = true /\ wf_utf8_resource t = true /\ comments_end_ok t = true.
+Proof. intros t Ht. repeat (destruct Ht as [<- | Ht]; [vm_compute; auto|]). destruct Ht. Qed.
+Example C02_example_D7_premise : wf_resource [CommentEntry (Comment [[]])] = true /\ comments_end_ok [CommentEntry (Comment [[]])] = false.
+Proof. split; reflexivity. Qed.
 
 (* the layouts really differ *)
 Example C02_example_layouts_differ :
